@@ -64,6 +64,20 @@ def convs(rng, tier):
                     c.eof = eof
                     out.append(c)
                     sid += 1
+                # one more whole message directly behind the one that ends the session, in the same write (the reader has it
+                # in hand when the FSM tears the connection down): the session still ends with OnClose and the stop returns
+                enders = [("open", S.frame(S.OPEN, S.open_body())), ("type9", S.frame(9)), ("notif", S.frame(S.NOTIF, S.notif_body(6, 2)))]
+                if state != "established":
+                    enders = [("update", S.frame(S.UPDATE, bytes(4))), ("type9", S.frame(9)), ("notif", S.frame(S.NOTIF, S.notif_body(2, 2)))]
+                for name, m in enders:
+                    for behind in (S.frame(S.KEEPALIVE), S.frame(S.UPDATE, bytes(30))):
+                        c = S.Conv(sid, direction=direction, tag="%s.%s.pipelined.%s" % (state, name, direction))
+                        c.meta = {"state": state, "what": name, "type": m[18]}
+                        c.judge = judge
+                        bring_to(c, state)
+                        c.send(m + behind)
+                        out.append(c)
+                        sid += 1
                 # the connection ends in the middle of a message (header complete, body partly or not at all received)
                 for full in (S.frame(S.UPDATE, b"\x00\x00\x00\x00" + gen.rbytes(rng, 40)), S.frame(S.OPEN, S.open_body()),
                              S.frame(S.NOTIF, S.notif_body(6, 2, b"bye"))):
